@@ -493,6 +493,10 @@ pub fn spec_for(prop: &str, tier: &str) -> Option<CrashSpec> {
             let roots: Vec<Vec<Op>> = vec![
                 vec![Op::Append { t: 0, len: 1 }, Op::Append { t: 0, len: 1 }],
                 vec![Op::Append { t: 0, len: half }, Op::Append { t: 0, len: half }, Op::Append { t: 0, len: 128 }, Op::Append { t: 0, len: 1 }],
+                // equal entries, one per block / two per block: successive durable cursor
+                // positions share their in-block offset and differ only in the block
+                vec![Op::Append { t: 0, len: s.fill }, Op::Append { t: 0, len: s.fill }, Op::Append { t: 0, len: s.fill }],
+                vec![Op::Append { t: 0, len: half }, Op::Append { t: 0, len: half }, Op::Append { t: 0, len: half }, Op::Append { t: 0, len: half }, Op::Append { t: 0, len: half }],
             ];
             for r in roots.iter() {
                 for suffix in enum_seqs(&alpha, if thorough { 4 } else { 3 }, 1) {
@@ -525,7 +529,19 @@ pub fn spec_for(prop: &str, tier: &str) -> Option<CrashSpec> {
             Some(CrashSpec {
                 prop: "C10",
                 cfgs: vec![mk(Consistency::Strict, Backend::Fd, Fsync::Each), mk(Consistency::Strict, Backend::Mmap, Fsync::Each)],
-                workloads: enum_seqs(&alpha, if thorough { 4 } else { 3 }, 0),
+                workloads: {
+                    let mut w = enum_seqs(&alpha, if thorough { 4 } else { 3 }, 0);
+                    // a first file with every block handed out (an oversized entry takes two
+                    // units after the writer's initial one, a second topic takes the last):
+                    // the next rotation of either topic opens a new file
+                    let full_file = vec![Op::Append { t: 0, len: over }, Op::Append { t: 1, len: half }];
+                    for tail in enum_seqs(&alpha[..3], if thorough { 3 } else { 2 }, 0) {
+                        let mut x = full_file.clone();
+                        x.extend(tail);
+                        w.push(x);
+                    }
+                    w
+                },
                 power_loss: true,
                 time_cap_s: if thorough { 1100.0 } else { 55.0 },
             })
